@@ -8,6 +8,8 @@ package main
 
 import (
 	"bytes"
+	"encoding/binary"
+	"encoding/json"
 	"fmt"
 	"os"
 	"sync"
@@ -37,6 +39,20 @@ func main() {
 	case has(target, "BloomFilter."):
 		f, _ := gx.NewMemBloomFilterWithParameters(1000, 0.01)
 		g, _ := gx.NewMemBloomFilterWithParameters(1000, 0.01)
+		if len(os.Args) > 2 && os.Args[2] == "named" {
+			// the same in-memory bitset under a filter that carries a metadata key (the other public
+			// way to build an in-memory filter): whether the lock is taken must not depend on the key
+			mk := func() *gx.BloomFilter {
+				b := gx.NewMemBloomFilterFromBitSet(make([]uint64, 9586/64+1), 7)
+				nf, err := gx.NewBloomFilterWithBitSet(b.GetCap(), b.GetNumHashes(), *b.GetBitSet(), "probe-key")
+				if err != nil {
+					fmt.Println("cannot build the named filter:", err)
+					os.Exit(3)
+				}
+				return nf
+			}
+			f, g = mk(), mk()
+		}
 		upd = func(i int) { f.Insert([]byte(fmt.Sprint("k", i))) }
 		call = map[string]func(int){
 			"BloomFilter.BloomPositiveRate": func(int) { f.BloomPositiveRate() },
@@ -253,6 +269,75 @@ func atomic(target string) {
 			b, _ := ref.Export()
 			if !bytes.Equal(a, b) {
 				fail("CMS: %d goroutines x 200 updates of x by 1: the exported document differs from the one after the same updates one after another: %s vs %s (trial %d)", G, a, b, trial)
+			}
+		}
+	case "CountMinSketch.WriteTo", "CountMinSketch.Export":
+		// every Update adds its count to one cell per row and to the running total, under the lock:
+		// in every state a reader can see, each row sums to the total. A snapshot taken while
+		// updates run must be one of those states.
+		for trial := 0; trial < 60; trial++ {
+			s, _ := gx.NewCountMinSketch(4, 16)
+			var msg string
+			var bad sync.Once
+			var wg sync.WaitGroup
+			stop := make(chan struct{})
+			wg.Add(1)
+			go func() {
+				defer wg.Done()
+				for i := 0; ; i++ {
+					select {
+					case <-stop:
+						return
+					default:
+					}
+					s.Update([]byte(fmt.Sprint("k", i%23)), 7)
+				}
+			}()
+			for n := 0; n < 200; n++ {
+				var total uint64
+				var sums []uint64
+				if target == "CountMinSketch.WriteTo" {
+					var b bytes.Buffer
+					s.WriteTo(&b)
+					w := b.Bytes()
+					u := func(i int) uint64 { return binary.BigEndian.Uint64(w[8*i:]) }
+					rows, cols := int(u(0)), int(u(1))
+					total = u(2)
+					for r := 0; r < rows; r++ {
+						var sum uint64
+						for c := 0; c < cols; c++ {
+							sum += u(3 + r*cols + c)
+						}
+						sums = append(sums, sum)
+					}
+				} else {
+					doc, _ := s.Export()
+					var d struct {
+						S uint64     `json:"s"`
+						M [][]uint64 `json:"m"`
+					}
+					json.Unmarshal(doc, &d)
+					total = d.S
+					for _, row := range d.M {
+						var sum uint64
+						for _, v := range row {
+							sum += v
+						}
+						sums = append(sums, sum)
+					}
+				}
+				for r, sum := range sums {
+					if sum != total {
+						bad.Do(func() {
+							msg = fmt.Sprintf("snapshot %d taken during updates: total=%d but row %d sums to %d (row sums %v)", n, total, r, sum, sums)
+						})
+					}
+				}
+			}
+			close(stop)
+			wg.Wait()
+			if msg != "" {
+				fail("CMS %s: %s (trial %d)", target, msg, trial)
 			}
 		}
 	case "HyperLogLog.Update":
